@@ -314,6 +314,36 @@ impl<'a, 'tcx> Cx<'a, 'tcx> {
                                 },
                             );
                             so.put("has_else", J::Bool(else_block.is_some()));
+                            if let Some(eb) = else_block {
+                                // the diverging block of `let PAT = INIT else { .. }`
+                                let eblk = &self.thir[*eb];
+                                let mut ev = Vec::new();
+                                let mut plain = true;
+                                for s2 in eblk.stmts.iter() {
+                                    match &self.thir[*s2].kind {
+                                        StmtKind::Expr { expr, .. } => {
+                                            let je = self.expr(*expr);
+                                            ev.push(J::obj().set("k", J::s("Expr")).set("e", je));
+                                        }
+                                        _ => plain = false,
+                                    }
+                                }
+                                if plain {
+                                    let mut bo = J::obj();
+                                    bo.put("k", J::s("Block"));
+                                    bo.put("ty", J::s("!"));
+                                    bo.put("sp", J::s(span_str(tcx, eblk.span)));
+                                    bo.put("stmts", J::Arr(ev));
+                                    bo.put(
+                                        "expr",
+                                        match eblk.expr {
+                                            Some(x) => self.expr(x),
+                                            None => J::Null,
+                                        },
+                                    );
+                                    so.put("else", bo);
+                                }
+                            }
                             so.put("sp", J::s(span_str(tcx, *span)));
                             sv.push(so);
                         }
